@@ -194,6 +194,9 @@ func NormalizeScen(s *Scen) {
 		if r.Links == nil {
 			r.Links = []Link{}
 		}
+		if r.Tags == nil {
+			r.Tags = []string{}
+		}
 		for li := range r.Links {
 			l := &r.Links[li]
 			if l.Targets == nil {
